@@ -522,6 +522,18 @@ def gen_constants():
             yield dict(blocks=blocks, bursts=[[['s0', 'put', ["i", 1]]]])
 
 
+def gen_not_names():
+    """'_not_NAME' shortcuts for names that begin with the letters of the prefix itself ('no_flow', 'not1',
+    'to', 'n_t') while blocks with the shortened names exist as well: the inverter negates NAME"""
+    for a, b in (('no_flow', 'flow'), ('not1', '1x'), ('to_x', 'x'), ('n_t_q', 'q'), ('ton', 'tonn')):
+        for va in (True, False):
+            blocks = [dict(name=b, kind='input', init=["b", va]), dict(name=a, kind='input', init=["b", not va]),
+                      dict(name='g1', kind='and', ins={'_': [['not', a], ['obj', b]]}, events=[]),
+                      dict(name='g2', kind='or', ins={'_': [['not', a], ['not', b]]}, events=[]),
+                      dict(name='g3', kind='xor', ins={'_': [['not', b], ['name', a]]}, events=[])]
+            yield dict(blocks=blocks, bursts=[[[a, 'put', ["b", va]]], [[b, 'put', ["b", not va]]]])
+
+
 def gen_long_chain(rng):
     """one Input feeding a chain of 205..260 Not blocks, the end of the chain reconverging with the input
     in an Xor: a single change makes more than 200 evaluations in one settling round"""
@@ -576,6 +588,7 @@ def check(run):
     cases = [gen_acyclic(run.rng) for _ in range(n)]
     cases += [gen_long_chain(run.rng) for _ in range(3 if run.tier == 'quick' else 40)]
     cases += list(gen_constants())
+    cases += list(gen_not_names())
     small = list(gen_small_exhaustive(2 if run.tier == 'quick' else 3))
     if run.tier == 'quick':
         small = small[::4]
